@@ -25,7 +25,7 @@ VALUES = {
     "float_type": ["float64", "float32", "float16", "float"],
     # -1 / -1.0: values the library stores without complaint although its helpers cannot use them (a context
     # that fails half-way through *entering* must still leave every setting as it was)
-    "decimals": list(range(10)) + [-1],
+    "decimals": list(range(10)) + [-1, 20],
     "atol": [0.0, 1e-9, 1e-3, 0.5, -1.0, "A2"],  # A2: a per-column tolerance array (np.isclose broadcasts it)
     "rtol": [0.0, 1e-6, 0.1, -1.0],
     "alias": ["fl", "", "*", "fz"],
